@@ -65,6 +65,8 @@ class AsyncioAdapterQueues:
         self.init_state = init_state
         self.ticks: list[WorkflowTick] = []
         self.state_store = state_store
+        # The terminal event has been handed to a stream consumer
+        self.stream_ended = False
 
     # created lazily via cached_property for Python 3.14+ compatibility (they require a running event loop)
     @functools.cached_property
@@ -162,13 +164,20 @@ class ExternalAsyncioAdapter(
 
     async def stream_published_events(self) -> AsyncGenerator[Event, None]:
         async with self._queues.stream_lock:
-            if self._queues.complete.done() and self._queues.publish_queue.empty():
+            # The run's task completes only after the control loop has cleaned up its
+            # workers, which can be later than the terminal event is consumed: a
+            # consumer arriving in between must not wait on the empty queue forever.
+            if (
+                self._queues.complete.done() or self._queues.stream_ended
+            ) and self._queues.publish_queue.empty():
                 raise WorkflowRuntimeError(
                     "Event stream already consumed. "
                     "Events can only be streamed once per workflow run."
                 )
             while True:
                 item = await self._queues.publish_queue.get()
+                if isinstance(item, StopEvent):
+                    self._queues.stream_ended = True
                 yield item
                 if isinstance(item, StopEvent):
                     break
